@@ -106,6 +106,27 @@ func (thisListener *GruleV3ParserListener) VisitTerminal(node antlr.TerminalNode
 	}
 }
 
+// textOf is ctx.GetText() in time linear in the size of the subtree. The runtime's GetText concatenates the text of
+// every level once more on the level above, and the listener asks for the text of every node: the time to build an
+// expression nested n levels deep grew with the third power of n.
+func textOf(ctx antlr.Tree) string {
+	var buff strings.Builder
+	writeTextOf(ctx, &buff)
+
+	return buff.String()
+}
+
+func writeTextOf(node antlr.Tree, buff *strings.Builder) {
+	if terminal, ok := node.(antlr.TerminalNode); ok {
+		buff.WriteString(terminal.GetText())
+
+		return
+	}
+	for _, child := range node.GetChildren() {
+		writeTextOf(child, buff)
+	}
+}
+
 // VisitErrorNode is called when an error node is visited.
 func (thisListener *GruleV3ParserListener) VisitErrorNode(node antlr.ErrorNode) {
 	LoggerV3.Errorf("GRL error, after '%v' and then unexpected '%thisListener'", thisListener.PreviousNode, node.GetText())
@@ -150,7 +171,7 @@ func (thisListener *GruleV3ParserListener) EnterRuleEntry(ctx *grulev3.RuleEntry
 		return
 	}
 	entry := ast.NewRuleEntry()
-	entry.GrlText = ctx.GetText()
+	entry.GrlText = textOf(ctx)
 	thisListener.Stack.Push(entry)
 }
 
@@ -238,7 +259,7 @@ func (thisListener *GruleV3ParserListener) EnterWhenScope(ctx *grulev3.WhenScope
 		return
 	}
 	whenScope := ast.NewWhenScope()
-	whenScope.GrlText = ctx.GetText()
+	whenScope.GrlText = textOf(ctx)
 	thisListener.Stack.Push(whenScope)
 }
 
@@ -274,7 +295,7 @@ func (thisListener *GruleV3ParserListener) EnterThenScope(ctx *grulev3.ThenScope
 		return
 	}
 	then := ast.NewThenScope()
-	then.GrlText = ctx.GetText()
+	then.GrlText = textOf(ctx)
 	thisListener.Stack.Push(then)
 }
 
@@ -310,7 +331,7 @@ func (thisListener *GruleV3ParserListener) EnterThenExpressionList(ctx *grulev3.
 		return
 	}
 	thenExpList := ast.NewThenExpressionList()
-	thenExpList.GrlText = ctx.GetText()
+	thenExpList.GrlText = textOf(ctx)
 	thisListener.Stack.Push(thenExpList)
 }
 
@@ -346,7 +367,7 @@ func (thisListener *GruleV3ParserListener) EnterThenExpression(ctx *grulev3.Then
 		return
 	}
 	thenExpr := ast.NewThenExpression()
-	thenExpr.GrlText = ctx.GetText()
+	thenExpr.GrlText = textOf(ctx)
 	thisListener.Stack.Push(thenExpr)
 }
 
@@ -382,7 +403,7 @@ func (thisListener *GruleV3ParserListener) EnterAssignment(ctx *grulev3.Assignme
 		return
 	}
 	assign := ast.NewAssignment()
-	assign.GrlText = ctx.GetText()
+	assign.GrlText = textOf(ctx)
 	thisListener.Stack.Push(assign)
 }
 
@@ -424,7 +445,7 @@ func (thisListener *GruleV3ParserListener) EnterExpression(ctx *grulev3.Expressi
 		return
 	}
 	expr := ast.NewExpression()
-	expr.GrlText = ctx.GetText()
+	expr.GrlText = textOf(ctx)
 	thisListener.Stack.Push(expr)
 }
 
@@ -587,7 +608,7 @@ func (thisListener *GruleV3ParserListener) EnterExpressionAtom(ctx *grulev3.Expr
 		return
 	}
 	atm := ast.NewExpressionAtom()
-	atm.GrlText = ctx.GetText()
+	atm.GrlText = textOf(ctx)
 	thisListener.Stack.Push(atm)
 }
 
@@ -625,7 +646,7 @@ func (thisListener *GruleV3ParserListener) EnterArrayMapSelector(ctx *grulev3.Ar
 		return
 	}
 	sel := ast.NewArrayMapSelector()
-	sel.GrlText = ctx.GetText()
+	sel.GrlText = textOf(ctx)
 	thisListener.Stack.Push(sel)
 }
 
@@ -697,7 +718,7 @@ func (thisListener *GruleV3ParserListener) EnterArgumentList(ctx *grulev3.Argume
 		return
 	}
 	argList := ast.NewArgumentList()
-	argList.GrlText = ctx.GetText()
+	argList.GrlText = textOf(ctx)
 	thisListener.Stack.Push(argList)
 }
 
@@ -740,7 +761,7 @@ func (thisListener *GruleV3ParserListener) EnterVariable(ctx *grulev3.VariableCo
 	if ctx.MemberVariable() != nil && len(ctx.MemberVariable().GetText()) > 0 {
 		vari.Name = ctx.MemberVariable().GetText()[1:]
 	}
-	vari.GrlText = ctx.GetText()
+	vari.GrlText = textOf(ctx)
 	thisListener.Stack.Push(vari)
 }
 
